@@ -367,7 +367,7 @@ from gpmc import interp as _ip
 
 
 from gpmc import manyobj as _mo
-SUBCHECKS = [Sub('grid_geodesic', gen, ev, chunk=1, floor=500, guard=True, envs=8), Sub('ellipsoids', gen_ell, ev, chunk=1, floor=300, guard=True), Sub('special_zones', gen_special, ev, chunk=1, floor=100, guard=True), Sub('lengths', gen_lengths, ev, chunk=1, floor=300, guard=True), Sub('near_equator', gen_equator, ev, chunk=8, floor=300, guard=True), Sub('both_hemispheres', gen_both, ev_both, chunk=1, floor=100, guard=True, envs=4), Sub('threads', _tg, _te, chunk=1, floor=3, poison=False, fresh=True, timeout=3600), Sub('many_objects', *_mo.make('C14', 'geodesy'), chunk=1, floor=3, poison=False, fresh=True, timeout=3600), Sub('callforms', *_cf.make('C14', 'geodesy'), chunk=1, floor=1, guard=True), Sub('interpreter', *_ip.make('C14', 'geodesy'), chunk=1, floor=5, poison=False)]
+SUBCHECKS = [Sub('grid_geodesic', gen, ev, chunk=1, floor=500, guard=True, envs=8), Sub('ellipsoids', gen_ell, ev, chunk=1, floor=300, guard=True), Sub('special_zones', gen_special, ev, chunk=1, floor=100, guard=True), Sub('lengths', gen_lengths, ev, chunk=1, floor=300, guard=True), Sub('near_equator', gen_equator, ev, chunk=8, floor=300, guard=True), Sub('both_hemispheres', gen_both, ev_both, chunk=1, floor=100, guard=True, envs=4), Sub('threads', _tg, _te, chunk=1, floor=3, poison=False, fresh=True, timeout=7200), Sub('many_objects', *_mo.make('C14', 'geodesy'), chunk=1, floor=3, poison=False, fresh=True, timeout=7200), Sub('callforms', *_cf.make('C14', 'geodesy'), chunk=1, floor=1, guard=True), Sub('interpreter', *_ip.make('C14', 'geodesy'), chunk=1, floor=5, poison=False)]
 
 
 def bounds(tier, seed):
